@@ -136,6 +136,9 @@ func (p *pipeline) stepDesc(i int, s step) string {
 	case opRemove:
 		return fmt.Sprintf("%s.Remove(%s)", pre, q(s.Name))
 	}
+	if s.Bef != none && s.Aft != none && afterFirst(i, s) {
+		return fmt.Sprintf("%s.After(%s).Before(%s).Register(%s, stub%d)", pre, q(s.Aft), q(s.Bef), q(s.Name), i)
+	}
 	if s.Bef != none {
 		pre += ".Before(" + q(s.Bef) + ")"
 	}
@@ -143,6 +146,12 @@ func (p *pipeline) stepDesc(i int, s step) string {
 		pre += ".After(" + q(s.Aft) + ")"
 	}
 	return fmt.Sprintf("%s.Register(%s, stub%d)", pre, q(s.Name), i)
+}
+
+// afterFirst: with both requests given, in which order the chain methods are called (it must not
+// matter); fixed by the step so that every enumerated sequence has one literal form.
+func afterFirst(i int, s step) bool {
+	return (i+int(s.Name)+int(s.Bef)+int(s.Aft))%2 == 1
 }
 
 func (p *pipeline) seqDesc(seq []step) []string {
@@ -678,6 +687,9 @@ func apply(db *gorm.DB, pl int, p *pipeline, i int, s step) error {
 	case s.Bef == none:
 		return pr.After(p.nameOf(int(s.Aft))).Register(name, fn)
 	}
+	if afterFirst(i, s) {
+		return pr.After(p.nameOf(int(s.Aft))).Before(p.nameOf(int(s.Bef))).Register(name, fn)
+	}
 	return pr.Before(p.nameOf(int(s.Bef))).After(p.nameOf(int(s.Aft))).Register(name, fn)
 }
 
@@ -1172,12 +1184,16 @@ func run(c *core.Ctx) {
 	desc := p.seqDesc(seq)
 	m := model(p, seq)
 	touched, usesStar := false, false
+	constrained := 0 // steps that carry a Before / After request
 	for _, s := range seq {
 		if s.Op != opRegister && int(s.Name) < userBase {
 			touched = true
 		}
 		if s.Bef == idStar || s.Aft == idStar {
 			usesStar = true
+		}
+		if s.Op == opRegister && (int(s.Bef) != none || int(s.Aft) != none) {
+			constrained++
 		}
 	}
 	c.Inc("pipeline_" + p.name)
@@ -1225,6 +1241,11 @@ func run(c *core.Ctx) {
 			cl := cl0
 			if usesStar && !strings.Contains(cl, "star") {
 				cl += "+star"
+			}
+			// the known defects of the sorter all need two requests that interfere (one rewrites or
+			// contradicts the other): a sequence with a single Before/After request is a class of its own
+			if constrained <= 1 {
+				cl += "/single-request"
 			}
 			c.Inc("viol_" + mode + "_" + cl)
 			d := map[string]interface{}{"pipeline": p.name, "sequence": desc, "origin": origin, "observation_mode": mode,
